@@ -18,7 +18,8 @@ RULE = ("(i) exhaustive exact grids: 2-8 poses (quick: 2-6), integer steps {0,1,
         "multiples of pi/8 x delta at multiples and midpoints x tolerance {0,0.1,0.3} x rad/deg; frames 1..N x both modes; "
         "(ii) Hypothesis random sequences (2-30 poses; bulk to 3000) with drawn delta/tolerance incl. unsatisfiable ones; both "
         "filters.* and metrics.id_pairs_from_delta. Non-trivial = N >= 3 and (>= 1 pair or a refusal); grid cases are distinct "
-        "by construction, random ones by SHA-1")
+        "by construction, random ones by SHA-1"
+        ' Round-3 addition: the same selection through evo_rpe option handling (cli_pairs, tolerance 0 included).')
 ASSUMPTIONS = ["angle decisions within 1e-9 rad of a threshold accept either outcome (exact angle hits are undecidable in float64)",
                "path decisions: exact on the integer grid; margin 1e-9 * scale for random geometry"]
 UNITS = {"f": Unit.frames, "m": Unit.meters, "r": Unit.radians, "d": Unit.degrees}
